@@ -220,7 +220,7 @@ fn random_std(rng: &mut Rng, plus: bool) -> StdHeader {
 }
 
 pub fn run(ctx: &Ctx) -> (Report, String) {
-    let n_random = ctx.n(6000, 400_000);
+    let n_random = ctx.n(60_000, 1_000_000);
     let thorough = ctx.tier == Tier::Thorough;
     let reps = par_shards(64, ctx.threads, |s| {
         let mut rep = Report::new();
@@ -230,7 +230,7 @@ pub fn run(ctx: &Ctx) -> (Report, String) {
     let mut rep = Report::merge_all(reps);
     if ctx.is_main() {
         let m = ctx.scale_pct;
-        rep.require("headers_matched", if thorough { 10_000_000 } else { 400_000 } * m / 100);
+        rep.require("headers_matched", if thorough { 40_000_000 } else { 3_000_000 } * m / 100);
         for k in ["sweep:sor-custom8", "sweep:ptype-lowbits", "sweep:opptype-bits", "sweep:cpfmt", "sweep:par", "sweep:cpcfc-etr", "sweep:uui-sss", "sweep:layers", "sweep:rps", "sweep:pb", "inheritance_pairs", "marker_flips_rejected", "decoded_picture_header_checked"] {
             rep.require(k, 40);
         }
@@ -689,5 +689,5 @@ fn shard(ctx: &Ctx, s: usize, n_random: u64, thorough: bool, rep: &mut Report) {
 
 pub fn replay_shard(ctx: &Ctx, s: usize, rep: &mut Report) {
     let thorough = ctx.tier == Tier::Thorough;
-    shard(ctx, s, ctx.n(6000, 400_000), thorough, rep);
+    shard(ctx, s, ctx.n(60_000, 1_000_000), thorough, rep);
 }
